@@ -447,6 +447,9 @@ pub fn run(ctx: &mut Ctx) -> Result<RunOut, Violation> {
         // C12 and C01 count "fail early with an Err" as honouring the Entity contract.
         "C12" => t.chance(1, 3),
         "C01" => t.chance(1, 5),
+        // C06: an entity stream may fail with an Err (that honours the Entity contract); the
+        // multipart body must then not end cleanly looking complete with a part's bytes missing.
+        "C06" => t.chance(1, 6),
         _ => false,
     };
     let now_ns = gen_clock(t);
@@ -504,7 +507,7 @@ pub fn run(ctx: &mut Ctx) -> Result<RunOut, Violation> {
     }
     let t = &mut ctx.tape;
     let mut knobs = gen_knobs(t, faults);
-    if focus == "C12" || focus == "C01" {
+    if focus == "C12" || focus == "C01" || focus == "C06" {
         // Only contract-honouring misbehaviour: failing early with an Err.
         knobs.faults.retain(|f| *f == FaultKind::Error);
     }
@@ -795,6 +798,17 @@ pub fn check_c06(ctx: &mut Ctx, ex: &Exchange, meta: &Meta, plan: &ReqPlan, sig:
         Ok(b) => b,
         Err(e) => return violation("C06", "boundary", e),
     };
+    if ex.fired.is_some() || ex.planned.is_some() {
+        // An entity stream failed: the only thing C06 can say is that such a body must not end
+        // cleanly with less than it announced (a part present by its header but without bytes).
+        if ex.clean_end() && ex.fired.is_some() {
+            let cl = ex.hdr("content-length").and_then(|v| std::str::from_utf8(v).ok()).and_then(|v| v.parse::<u128>().ok());
+            if cl != Some(ex.log.total) {
+                return violation("C06", "clean-end-after-entity-error", format!("an entity stream failed ({:?}) yet the multipart body ended cleanly with {} bytes, Content-Length {:?}", ex.fired.as_ref().map(|f| (f.kind.name(), f.call, f.at)), ex.log.total, cl));
+            }
+        }
+        return Ok(RunOut { sig, nontrivial: false });
+    }
     if !ex.clean_end() {
         return violation(
             "C06",
